@@ -1,4 +1,4 @@
-(* Extract/C01.v — run a history of Evaluate/SetValue/Build on a workbook given
+(* Extract/C08.v — C01's entries plus [trim]; run a history of Evaluate/SetValue/Build on a workbook given
    on the wire; answer, per operation, the returned value and the snapshot of
    the cache (built flag and value of every node).
 
@@ -7,9 +7,16 @@
      formula = (0) | (1 cols) | (2 operand) | (3 opcode operand operand)
              | (4 operand) | (5 which operand)
      operand = (0 i) | (1 z) | (2 c1 c2 …)
-     op = (0 n) evaluate | (1 a value) set_value | (2 n) build            *)
+     op = (0 n) evaluate | (1 a value) set_value | (2 n) build
+   trim (nodes pre_ops inputs outputs rounds)
+     pre_ops: history run before the trim; inputs/outputs: node indices;
+     rounds = ((a value) ...) ...: per round the set_values on the trimmed
+     machine, then one evaluate per output
+     answer: (refused kept frozen snapshot ((value ...) ...))
+       kept/frozen: one 0/1 flag per node (cell map after the trim; cells that
+       went through the freezing branch), snapshot: as in history, after the trim *)
 From Coq Require Import ZArith List String Extraction ExtrOcamlBasic.
-From PV Require Import Lib.Py Extract.Sx Model.Ops Model.Graph Model.GraphExpr.
+From PV Require Import Lib.Py Extract.Sx Model.Ops Model.Graph Model.GraphExpr Model.Trim.
 Import ListNotations.
 Open Scope string_scope.
 
@@ -125,8 +132,56 @@ Definition spec_entry (args : list sx) : sx :=
   | _ => bad_args
   end.
 
+(* trim_graph on the machine, then rounds of writes to the inputs on the trimmed machine *)
+Definition dec_assign (x : sx) : option (nat * pyval) :=
+  match x with
+  | SL [SZ a; v] => option_map (fun v => (Z.to_nat a, v)) (dec_val v)
+  | _ => None
+  end.
+Definition dec_round (x : sx) : option (list (nat * pyval)) :=
+  match x with SL l => dec_list dec_assign l | _ => None end.
+
+Fixpoint run_rounds (V : workbook) (sem : nat -> list pyval -> pyval) (outs : list nat)
+                    (s : state) (rounds : list (list (nat * pyval))) : list sx :=
+  match rounds with
+  | [] => []
+  | r :: rest =>
+      let s1 := fold_left (fun s av => set_value V s (fst av) (snd av)) r s in
+      let '(s2, vals) := fold_left (fun (acc : state * list sx) o =>
+                                      let '(s, vs) := acc in
+                                      let '(s', v) := evaluate V sem s o in (s', app vs [enc_val v]))
+                                   outs (s1, []) in
+      SL vals :: run_rounds V sem outs s2 rest
+  end.
+
+Definition flags (W : workbook) (b : nat -> bool) : sx :=
+  SL (map (fun n => SZ (if b n then 1 else 0)%Z) (seq 0 (wb_n W))).
+
+Definition trim_entry (args : list sx) : sx :=
+  match args with
+  | [SL nodes; SL ops; SL ins; SL outs; SL rounds] =>
+      match dec_list dec_node nodes, dec_list dec_op ops, sx_zs ins, sx_zs outs,
+            dec_list dec_round rounds with
+      | Some ns, Some os, Some ins, Some outs, Some rs =>
+          let W := mk_wb ns in
+          let sem := mk_sem ns in
+          let I := map Z.to_nat ins in
+          let O := map Z.to_nat outs in
+          let s := fst (run W sem (init W) os) in
+          let t := trim W sem I O s in
+          let V := tr_wb t in
+          SL [ SZ (if refused W (st_built (build_all W sem O s)) I O then 1 else 0)%Z;
+               flags W (st_built (tr_st t));
+               flags W (tr_frz t);
+               snapshot V (tr_st t);
+               SL (run_rounds V sem O (tr_st t) rs) ]
+      | _, _, _, _, _ => bad_args
+      end
+  | _ => bad_args
+  end.
+
 Definition table : list entry :=
-  [ E "history" history_entry; E "spec" spec_entry ].
+  [ E "history" history_entry; E "spec" spec_entry; E "trim" trim_entry ].
 
 Definition dispatch (name : list Z) (args : list sx) : sx :=
   match lookup table name with
